@@ -40,7 +40,21 @@ def gen_case(seed, idx, tier):
         c.skip = "no-valid-line"
         return c
     nsp = 6 if tier == "quick" else 16
-    exp = argh.expected(cfg, uses)
+    # clear-before-assign + unique: a first value equal to one of the defaults is no duplicate (the defaults are gone by then)
+    for a in cfg.args:
+        if a.clear and a.unique and a.init and rng.random() < 0.6:
+            firsts = [u for u in uses if u.arg is a and u.elems]
+            cand = a.init[rng.randrange(len(a.init))]
+            if firsts and cand not in firsts[0].elems and argh.check_elem(a, cand, argh.elem_of(a.slot)):
+                old0 = firsts[0].elems[0]
+                firsts[0].elems[0] = cand
+                if argh.valid(cfg, uses)[0] is not True:
+                    firsts[0].elems[0] = old0
+    try:
+        exp = argh.expected(cfg, uses)
+    except argh.ModelAbstain:
+        c.skip = "model-abstains"
+        return c
     # optional tail: a multi-value list given as separate words, ended by a value-less flag, followed by a free value for
     # the positional argument - all legal, all documented (setTakesMultiValue / "-" key)
     tail = []
